@@ -209,21 +209,31 @@ def restore(imp, gid, saved):
     imp.storage.add_graph_direct(gid, saved.copy())
 
 
-def handle_ids(h):
-    """What a handle reports about its interfaces: the list, the name-keyed view, and - for services - the printed form."""
-    out = {}
-    # (the printed form first: reading one of the lists may bring the handle up to date)
-    if type(h).__name__ in ('NetworkService', 'PortMirrorService'):
+_HCOUNT = [0]
+
+
+def handle_ids(h, first=0):
+    """What a handle reports about its interfaces: the list, the name-keyed view, and - for services - the printed form.
+    Reading one of them may bring the handle up to date for the others, so the caller rotates which one is read first."""
+    def printed():
+        if type(h).__name__ not in ('NetworkService', 'PortMirrorService'):
+            return None
         try:
-            out['printed'] = repr(h)
+            return repr(h)
         except Exception as e:
-            out['printed'] = f'raises {type(e).__name__}'
-    try:
-        out['interfaces'] = sorted(i.node_id for i in h.interfaces.values())
-    except Exception as e:
-        out['interfaces'] = f'raises {type(e).__name__}'
-    out['interface_list'] = sorted(i.node_id for i in h.interface_list)
-    return out
+            return f'raises {type(e).__name__}'
+
+    def named():
+        try:
+            return sorted(i.node_id for i in h.interfaces.values())
+        except Exception as e:
+            return f'raises {type(e).__name__}'
+
+    def listed():
+        return sorted(i.node_id for i in h.interface_list)
+    acc = [('interface_list', listed), ('interfaces', named), ('printed', printed)]
+    acc = acc[first % 3:] + acc[:first % 3]
+    return {k: f() for k, f in acc}
 
 
 def check_state(ctx, imp, store, flavour, topo, script):
@@ -347,7 +357,8 @@ def check_state(ctx, imp, store, flavour, topo, script):
                 ctx.count('handle-compared')
                 try:
                     fresh = type(h)(name=post['nodes'][nid]['Name'], node_id=nid, topo=topo)
-                    a, b = handle_ids(h), handle_ids(fresh)
+                    _HCOUNT[0] += 1
+                    a, b = handle_ids(h, _HCOUNT[0]), handle_ids(fresh, _HCOUNT[0])
                 except Exception as e:
                     ctx.violation(f'C08/{op["op"]}-handle-unusable', 'the handle remains usable', dict(w, error=str(e)[:200]))
                     continue
